@@ -270,7 +270,13 @@ class LocalBackend(TrialBackend):
                 if self._is_process_done(trial_id=trial_id):
                     self._write_time_stamp(trial_id=trial_id, name="end")
 
-            metrics = retrieve(log_lines=self.stdout(trial_id=trial_id))
+            log_lines = self.stdout(trial_id=trial_id)
+            if log_lines and not log_lines[-1].endswith("\n"):
+                # The last line is still being written by the training script.
+                # A report on it is incomplete (reports end with a newline) and
+                # is picked up once the line is complete
+                log_lines = log_lines[:-1]
+            metrics = retrieve(log_lines=log_lines)
             trial_results = self._trial_dict[trial_id].add_results(
                 metrics=metrics,
                 status=status,
